@@ -56,7 +56,7 @@ claim('C03',
       '(pop/try_chain/run only on the reduce path, merge keeps the popped precedence, final push of the incoming operator, operand '
       'order), driver and sibling agreement, left-to-right single evaluation in the chain loop, and the complete who-chains-with-whom '
       'table of all try_chain overrides, each returning its own operator type; assigning a precedence keeps the associativity; the tie-break table is obtained by evaluating the '
-      'function on all 16 abstract inputs; sections fill their leading blank first.',
+      'function on all 16 abstract inputs; sections fill their leading blank first. A binary application over three evaluated parts evaluates left operand, operator, right operand in that order.',
       'discriminant-path enumeration of MIR + guard-polarity/dominance queries + literal tables from HIR patterns')
 claim('C04',
       'Decides agreement of the dispatch paths, not extensional equality per builtin: run vs run1/run2 of every impl Builtin '
@@ -72,7 +72,7 @@ claim('C05',
       'counts decremented by one, Return absorbed only by calls, Throw only by try), declaration vs assignment layering over the '
       'Env parent chain, short-circuit polarity of and/or/coalesce, branch exclusivity of if, refusal of a redeclaration before any map write, and '
       'the left-associative grammar layering of or/coalesce over and over chains, every use of an environment in Closure::run being the fresh '
-      'scope, the try body running in the enclosing scope, fold builtins translating their body\'s Break, `into max|min` agreeing with max|min, `into first` ending the loop, and every successful insert storing the declared type, and the value of a keyed yield evaluated only after the key lookup.',
+      'scope, the try body running in the enclosing scope, fold builtins translating their body\'s Break, `into max|min` agreeing with max|min, `into first` ending the loop, and every successful insert storing the declared type, and the value of a keyed yield evaluated only after the key lookup. The parser unwraps a one-statement list only without a trailing semicolon.',
       'exhaustive arm tables from HIR + CFG cycle/dominance/guard-polarity queries over MIR')
 claim('C17',
       'Decides structural agreement of the freeze traversal with the evaluator, not semantic equivalence over programs: scope copies '
